@@ -242,6 +242,17 @@ class Analysis:
         else:
             callee = ('ind', self.term_at(bb, idx, t['f']))
         args = tuple(self.term_at(bb, idx, a) for a in t['args'])
+        # lossless numeric conversions spelled with From/Into are the casts they stand for: u32::from(x: u8) = x as u32
+        if c is not None and callee in ('std::convert::From::from', 'std::convert::Into::into') and len(args) == 1:
+            INTS = ('u8', 'u16', 'u32', 'u64', 'usize', 'i8', 'i16', 'i32', 'i64', 'isize')
+            src = (t.get('arg_tys') or [None])[0]
+            dst = t.get('dest_ty')
+            if src in INTS and dst in INTS:
+                return ('cast', 'IntToInt', dst, args[0])
+            if src in INTS and dst in ('f32', 'f64'):
+                return ('cast', 'IntToFloat', dst, args[0])
+            if src == 'f32' and dst == 'f64':
+                return ('cast', 'FloatToFloat', dst, args[0])
         ct = ('call', callee, args, bb)
         red = self._beta(ct)
         res = red if red is not None else ct
@@ -339,8 +350,9 @@ class Analysis:
                 # payloads of the operands
                 if e.get('adt') == '(tuple)' and name in ('0', '1') and t[0] == 'field' and t[4] == 'Some' and t[2] == '0':
                     z = t[1]
-                    while z[0] in ('ref', 'deref'):
-                        z = z[1]
+                    while z[0] in ('ref', 'deref') or (z[0] == 'call' and isinstance(z[1], str) and z[1].endswith('Option::<T>::filter') and len(z[2]) == 2):
+                        # opt.filter(pred) has the payload of opt whenever it has one
+                        z = z[1] if z[0] in ('ref', 'deref') else z[2][0]
                     if z[0] == 'call' and isinstance(z[1], str) and z[1].endswith('Option::<T>::zip') and len(z[2]) == 2:
                         t = ('field', z[2][int(name)], '0', t[3], 'Some')
                         continue
@@ -378,7 +390,7 @@ class Analysis:
         if k in ('ref', 'rawptr'):
             return ('ref', self.place_term(bb, idx, rv['p']))
         if k == 'cast':
-            return ('cast', rv['ck'], rv['ty'], self.term_at(bb, idx, rv['o']))
+            return self._outline(('cast', rv['ck'], rv['ty'], self.term_at(bb, idx, rv['o'])), bb)
         if k == 'binop':
             return self._outline(('bin', rv['op'], self.term_at(bb, idx, rv['a']), self.term_at(bb, idx, rv['b'])), bb)
         if k == 'unop':
